@@ -41,6 +41,7 @@ LEVEL = "exploration"
 TECHNIQUE = ("deterministic simulation: real SMTPClient <-> real SMTP/ESMTP over a simulated link, seeded bodies, "
              "FileSender chunk size and wire segmentation; end-to-end line oracle")
 QUICK_RUNS = 80000
+TWIN_P = 0.08   # this share of the runs drives two independent instances of the scenario one after the other (detsim.runner._run_scenario)
 BATCH = 250
 RUN_WALL_LIMIT_S = 120   # runs take milliseconds; generous so that an overloaded host is not mistaken for a hang
 COMPONENTS = {"real": ["twisted.mail.smtp.SMTPClient (transformChunk, finishedFileTransfer, smtpState_*)",
